@@ -27,6 +27,10 @@ INVALID = [
     ("implements-enum", "type Query implements E { a: Int } enum E { X }", 1),
     ("implements-union", "type Query implements U { a: Int } type A { x: Int } union U = A", 1),
     ("implements-input", "type Query implements I { a: Int } input I { x: Int }", 1),
+    ("bad-name-and-empty-object", "type Query { a: Int } type __Obj", 2),
+    ("bad-name-and-empty-union", "type Query { a: Int } union __U", 2),
+    ("bad-name-and-empty-enum", "type Query { a: Int } enum __E", 2),
+    ("bad-name-and-output-field-in-input", "type Query { a(i: __In): Int } input __In { q: Query }", 2),
     ("empty-object", "type Query { a: Int } type A", 1),
     ("empty-interface", "type Query { a: Int } interface I", 1),
     ("empty-union", "type Query { a: Int } union U", 1),
@@ -206,7 +210,7 @@ def check(tier, seed):
         if want != got:
             run.violation("validate:well-formed-names", "VALID_NAME_RE %s %r, the specification's Name says %s" % ("accepts" if got else "rejects", name, want), {"name": name}, True)
     # history: validate(); reassign a resolver with an incompatible signature; validate() must re-check
-    for how in ("register_resolver", "register_default_resolver", "decorator-wildcard", "register_subscription"):
+    for how in ("register_resolver", "register_default_resolver", "decorator-wildcard", "register_subscription", "assign-default_resolver"):
         s = build_schema("type Query { item(id: ID!): Int } type Subscription { tick(n: Int!): Int }")
         s.validate()
         bad = lambda root, ctx, info: 1          # noqa: E731  (no parameter for the argument)
@@ -217,6 +221,8 @@ def check(tier, seed):
                 s.register_default_resolver("Query", bad)
             elif how == "decorator-wildcard":
                 s.resolver("Query.*")(bad)
+            elif how == "assign-default_resolver":
+                s.default_resolver = lambda root: 1           # the documented way to set the schema-wide default resolver; not even three parameters
             else:
                 s.register_subscription("Subscription", "tick", bad)
         except GraphQLError:
